@@ -33,17 +33,13 @@ def dft_upsample(
 
     M, N = F.shape
     du = np.ceil(1.5 * up).astype(int)
-    row = np.arange(-du, du + 1)
-    col = np.arange(-du, du + 1)
-    r_shift = shift[0] - M // 2
-    c_shift = shift[1] - N // 2
+    # sample positions (in pixels): 2*du+1 points spaced 1/up apart, centred on `shift`
+    row = shift[0] + xp.arange(-du, du + 1) / up
+    col = shift[1] + xp.arange(-du, du + 1) / up
 
-    kern_row = np.exp(
-        -2j * np.pi / (M * up) * np.outer(row, xp.fft.ifftshift(xp.arange(M)) - M // 2 + r_shift)
-    )
-    kern_col = np.exp(
-        -2j * np.pi / (N * up) * np.outer(xp.fft.ifftshift(xp.arange(N)) - N // 2 + c_shift, col)
-    )
+    # inverse-DFT kernels evaluated at those positions
+    kern_row = xp.exp(2j * np.pi * xp.outer(row, xp.fft.fftfreq(M)))
+    kern_col = xp.exp(2j * np.pi * xp.outer(xp.fft.fftfreq(N), col))
     return xp.real(kern_row @ F @ kern_col)
 
 
@@ -142,7 +138,9 @@ def cross_correlation_shift(
         except (IndexError, ValueError):
             dxf = dyf = 0.0
 
-        shifts = np.array([x0, y0]) + (np.array(peak) - upsample_factor) / upsample_factor
+        # the centre of the upsampled window (index du in dft_upsample) sits at (x0, y0)
+        du = np.ceil(1.5 * upsample_factor)
+        shifts = np.array([x0, y0]) + (np.array(peak) - du) / upsample_factor
         shifts += np.array([dxf, dyf]) / upsample_factor
 
     shifts = (shifts + 0.5 * np.array(cc.shape)) % cc.shape - 0.5 * np.array(cc.shape)
